@@ -1,6 +1,6 @@
 (* Proofs about Model/Relay.v, part 2: whole runs, c01_relay_identity, the doRead-level statements. *)
 From Coq Require Import List NArith Bool Lia.
-From MV Require Import Model.Relay Proofs.RelayInv Gen.RelaySrc.
+From MV Require Import Model.Relay Proofs.RelayInv.
 Import ListNotations.
 
 (* ------------------------------------------------------------------ whole runs *)
@@ -108,11 +108,17 @@ Proof.
   brk; cbn [fst snd c_trace c_closed] in *; try discriminate; rewrite <- ?app_assoc; cbn [app]; eexists; reflexivity.
 Qed.
 
-(* ------------------------------------------------------------------ tie to the source (Gen/RelaySrc.v) *)
-(* The translator recognised doRead's error block as: only a closed connection, a time-out without bytes and an error
-   other than io.EOF / time-out return before onRead (what Model/Relay.v `rd` does), and the proxy's reaction to a
-   close event of either connection, read from the two switch statements, is the model's `flushes`. *)
-Lemma relay_source_shape :
-  RelaySrc_translator_ok = true /\ doread_eof_delivers = true /\
-  forall ev, up_reaction ev = Some (flushes ev) /\ down_reaction ev = Some (flushes ev).
-Proof. split; [reflexivity|]. split; [reflexivity|]. intros ev; destruct ev; split; reflexivity. Qed.
+(* ------------------------------------------------------------------ tie to the source *)
+(* Nothing in Proofs depends on Gen/*.v.  The proxy's reaction to a close event of either connection as the model has it
+   (`flushes`), written as the table the translator generates; Props/C01_relay.v compares Gen/RelaySrc.v's up_reaction /
+   down_reaction with this constant by conversion. *)
+Definition reaction_table (ev : cev) : option bool :=
+  match ev with
+  | RemoteClose => Some true
+  | LocalClose => Some false
+  | OnReadErrClose => Some false
+  | OnWriteTimeout => Some true
+  end.
+
+Lemma reaction_table_is_flushes : forall ev, reaction_table ev = Some (flushes ev).
+Proof. intros ev; destruct ev; reflexivity. Qed.
